@@ -26,6 +26,16 @@ pub trait Machine: Sync {
     fn check(&self, _s: &Self::S) -> Result<(), StepErr> {
         Ok(())
     }
+    /// read-only observations that are a function of the state alone (of everything `key` covers): run once per
+    /// distinct state - on every initial state and on every state the first time a worker reaches it - instead of
+    /// once per transition.  Replays run it after every step.
+    fn check_new(&self, _s: &Self::S) -> Result<(), StepErr> {
+        Ok(())
+    }
+    /// true if `check_new` is implemented (the explorer then remembers the keys met within a level)
+    fn has_check_new(&self) -> bool {
+        false
+    }
     fn nontrivial(&self, _s: &Self::S) -> bool {
         true
     }
@@ -95,7 +105,7 @@ pub fn explore<M: Machine>(m: &M, lim: &Limits, acc: &mut Acc) {
     let mut frontier: Vec<(u32, M::S)> = vec![];
     let mut nontrivial = 0u64;
     for (i, s) in inits.into_iter().enumerate() {
-        if let Err((call, symptom, detail)) = m.check(&s) {
+        if let Err((call, symptom, detail)) = m.check(&s).and_then(|_| m.check_new(&s)) {
             acc.viol(Viol { call, symptom, detail: format!("{} init#{}: {}", name, i, detail), replay: replay_value(m, i as u32, &[]) });
             continue;
         }
@@ -140,6 +150,7 @@ pub fn explore<M: Machine>(m: &M, lim: &Limits, acc: &mut Acc) {
         let chunk = (frontier.len() + nthreads - 1) / nthreads;
         type Out<S, Op> = (Vec<(u32, Op, Box<[u8]>, Option<S>, bool)>, Vec<(u32, Op, StepErr)>, u64);
         let vis = &visited;
+        let hcn = m.has_check_new();
         let aborted = std::sync::atomic::AtomicBool::new(false);
         let aborted = &aborted;
         let results: Vec<Out<M::S, M::Op>> = std::thread::scope(|sc| {
@@ -150,6 +161,8 @@ pub fn explore<M: Machine>(m: &M, lim: &Limits, acc: &mut Acc) {
                         let mut out = vec![];
                         let mut vs = vec![];
                         let mut tr = 0u64;
+                        // keys this worker has already met in this level (check_new runs once per distinct state)
+                        let mut seen_here: std::collections::HashSet<Box<[u8]>, fxhash::FxBuildHasher> = Default::default();
                         for (k, (id, s)) in ch.iter().enumerate() {
                             // wall cap inside a level: stop expanding (the level is then reported as incomplete)
                             if k % 64 == 0 && (t0.elapsed() > lim.wall + lim.wall / 2 || (k % 4096 == 0 && rss_gb() > 28.0)) {
@@ -162,7 +175,15 @@ pub fn explore<M: Machine>(m: &M, lim: &Limits, acc: &mut Acc) {
                                 match m.step(&mut s2, &op) {
                                     Ok(inside) => {
                                         let k = m.key(&s2).into_boxed_slice();
-                                        if !vis.contains_key(&k) {
+                                        if !vis.contains_key(&k) && (!hcn || seen_here.insert(k.clone())) {
+                                            if hcn {
+                                                if let Err(e) = m.check_new(&s2) {
+                                                    // reported; the state is recorded as seen but not expanded
+                                                    vs.push((*id, op.clone(), e));
+                                                    out.push((*id, op, k, None, false));
+                                                    continue;
+                                                }
+                                            }
                                             let nt = m.nontrivial(&s2);
                                             out.push((*id, op, k, if inside { Some(s2) } else { None }, nt));
                                         }
@@ -325,7 +346,7 @@ pub fn replay<M: Machine>(m: &M, r: &Value) -> u64 {
     let mut s = m.inits().swap_remove(init);
     for (i, op) in ops.iter().enumerate() {
         println!("  step {} {:?}", i, op);
-        match m.step(&mut s, op) {
+        match m.step(&mut s, op).and_then(|_| m.check_new(&s)) {
             Ok(_) => {}
             Err(e) => {
                 println!("  violation: {} :: {} :: {}", e.0, e.1, e.2);
